@@ -10,6 +10,7 @@ import (
 	"time"
 
 	"github.com/bluenviron/gomavlib/v3"
+	"github.com/bluenviron/gomavlib/v3/pkg/dialect"
 	"github.com/bluenviron/gomavlib/v3/pkg/dialects/common"
 	"github.com/bluenviron/gomavlib/v3/pkg/frame"
 	"github.com/bluenviron/gomavlib/v3/pkg/message"
@@ -297,6 +298,7 @@ func TestC15(t *testing.T) {
 		}
 		c15apiMix(rep, seed, i)
 		c15linkEndsAfterOverflow(rep, seed, i)
+		c15lives(rep, seed, i)
 		switch (i + shard) % 6 {
 		case 0:
 			c10custom(aux, seed, 7000+i)
@@ -423,6 +425,50 @@ func c15linkEndsAfterOverflow(rep *vh.Report, seed uint64, idx int) {
 	}
 	safeClose(rep, node)
 	<-done
+}
+
+// c15lives: one Node value initialised, used and closed many times in a row with its configuration (heartbeat fields, ids,
+// the dialect's version) changed in place between the lives, heartbeats and stream requests running at a period of a
+// millisecond or less: whatever a life started has ended when Close returns, so nothing of it reads what the application
+// rewrites for the next life.
+func c15lives(rep *vh.Report, seed uint64, idx int) {
+	if aborted() {
+		return
+	}
+	r := vh.Sub(seed, fmt.Sprintf("c15-lives-%d", idx))
+	d := &dialect.Dialect{Version: 3, Messages: testDialect.Messages}
+	node := &gomavlib.Node{Dialect: d, OutVersion: gomavlib.V2, OutSystemID: 54, HeartbeatPeriod: 300 * time.Microsecond, StreamRequestEnable: true}
+	for life := 0; life < vh.Pick(25, 120); life++ {
+		tr := fake.NewTransport("lives")
+		node.Endpoints = []gomavlib.EndpointConf{gomavlib.EndpointCustom{ReadWriteCloser: tr}}
+		node.HeartbeatSystemType = 1 + life%20
+		node.HeartbeatAutopilotType = life % 5
+		node.OutSystemID = byte(1 + life%200)
+		node.OutComponentID = byte(life % 3)
+		node.StreamRequestFrequency = 1 + life%9
+		d.Version = life % 4
+		if life%7 == 3 {
+			node.OutVersion = gomavlib.V1
+		} else {
+			node.OutVersion = gomavlib.V2
+		}
+		if err := node.Initialize(); err != nil {
+			return
+		}
+		done := make(chan struct{})
+		go func() {
+			defer close(done)
+			for range node.Events() {
+			}
+		}()
+		tr.Feed(hbFrame(byte(1+life%100), 1, 3, 0))
+		time.Sleep(time.Duration(200+r.Intn(1500)) * time.Microsecond)
+		if !safeClose(rep, node) {
+			return
+		}
+		<-done
+		rep.Count("node_value_lives_under_the_race_detector", 1)
+	}
 }
 
 func c15long(rep *vh.Report) {
